@@ -14,7 +14,9 @@ Record ccase := mkCase {
   c_panic : bool;            (* the implementation panicked *)
   c_stable : bool;           (* repeated calls in fresh HashMaps returned identical results *)
   c_out : list opath;        (* the returned paths, in order *)
-  c_bytes0 : list N }.       (* raw dp_path bytes of the first returned path ([] if none) *)
+  c_bytes0 : list N;         (* raw dp_path bytes of the first returned path ([] if none) *)
+  c_has_sub : bool;          (* the input is "valid set + added segments" and c_sub is meaningful *)
+  c_sub : list opath }.      (* what the implementation returns for the valid subset alone *)
 
 (** SHA-256 stand-ins for one case *)
 Definition case_hid (c : ccase) : list N -> N :=
@@ -101,6 +103,8 @@ Definition verdict (c : ccase) : N :=
   let mismatch := mismatch || sorted_hyp_bad in
   let bad := c_panic c
              || negb (forallb self_consistent (c_out c)) || negb (bytes0_decodes c)
+             || negb (forallb (provenance_ok (c_cores c ++ c_noncores c)) (c_out c))
+             || (c_has_sub c && negb ties && negb (route_subseq (c_sub c) (c_out c)))
              || (c_wf c && negb (c04_ok c)) in
   (if mismatch then 1 else 0) + (if bad then 2 else 0).
 
